@@ -12,6 +12,11 @@ C07 — conditional writes are atomic under concurrency. Property theorems.
  (iii) `cas_no_lost_update` on `Pithos.MetaFine`, the statement-level model of the optimistic-lock
        protocol, for arbitrary interleavings (what matters off SQLite) — proofs in
        Pithos.Lemmas.MetaFine. The append theorems of the same model are in Props/C12Concurrent.lean.
+ (iv)  the DATA FLOW of the real conditional write paths, regenerated from the sources
+       (`Pithos.Gen.CondPaths`): `if_match_commits_only_on_the_compared_row` on `Pithos.CondProto`
+       (one If-Match writer of an arbitrary path shape against an arbitrary environment) says which
+       shapes are safe; `extracted_if_match_paths_lock_the_compared_row` decides that the extracted
+       ones are; `reread_without_recompare_overwrites` is what happens otherwise.
 -/
 import Pithos.Model.Linearize
 import Pithos.Lemmas.Linearize
@@ -20,6 +25,9 @@ import Pithos.Model.S3
 import Pithos.Lemmas.CondWrite
 import Pithos.Model.MetaFine
 import Pithos.Lemmas.MetaFine
+import Pithos.Model.CondProto
+import Pithos.Lemmas.CondProto
+import Pithos.Gen.CondPaths
 
 namespace Pithos.C07
 open Pithos.Lin Pithos.Gen.TxFacts
@@ -286,5 +294,89 @@ example :
   decide
 
 end Fine
+
+-- ---------------------------------------------------------------- (iv) the extracted data flow of the conditional paths
+
+section Paths
+open Pithos.CondProto Pithos.Gen.CondPaths
+
+/-- **if_match_commits_only_on_the_compared_row.** One If-Match writer whose code path reads the
+latest row `reads` times, compares the ETag after the reads in `compared`, and takes the optimistic
+lock with the (id, version) of read `lockGen`; between any two of its statements ANY other writers
+may commit (updates that bump the version, deletes, inserts under fresh ids). If the lock-supplying
+read is one of the compared reads (`Spec.Safe`), then for EVERY such interleaving the write commits
+only by replacing a row that has the ETag it named. -/
+theorem if_match_commits_only_on_the_compared_row (sp : Spec) (hs : sp.Safe) (e new : List Nat) (d : Db)
+    (hd : ∀ r, d.row = some r → r.id < d.nextId) (evs : List Ev) :
+    ∀ b, (run sp e new (d, {}) evs).2.st = .committed b → ∃ c, b = some c ∧ c.parts = e :=
+  (inv_run new hs evs (inv_init sp e d hs hd)).done
+
+/-- Negation witness for an unsafe shape — two reads, the ETag compared after the first only, the
+lock taken with the version of the second (a "refresh before locking" that forgets to compare
+again): the writer reads ETag [1]; another writer commits [5] (resp. deletes the key); the writer
+re-reads, locks the NEW row (resp. takes no lock at all) and commits — it overwrites an
+acknowledged write it never saw (resp. re-creates a deleted key), although nothing ever had the
+ETag it named at that moment. -/
+theorem reread_without_recompare_overwrites :
+    (run ⟨2, [1], 2⟩ [1] [9] (⟨some ⟨0, 1, [1]⟩, 1⟩, {}) [.a, .env (.update 0 [5]), .a, .a])
+      = (⟨some ⟨0, 5, [9]⟩, 1⟩, { pc := 2, lockSeen := some (some ⟨0, 2, [5]⟩), st := .committed (some ⟨0, 2, [5]⟩) }) ∧
+    (run ⟨2, [1], 2⟩ [1] [9] (⟨some ⟨0, 1, [1]⟩, 1⟩, {}) [.a, .env .delete, .a, .a])
+      = (⟨some ⟨1, 1, [9]⟩, 2⟩, { pc := 2, lockSeen := some none, st := .committed none }) ∧
+    -- the safe shape (one read, compared, locked) on the same schedules: refused both times
+    (run ⟨1, [1], 1⟩ [1] [9] (⟨some ⟨0, 1, [1]⟩, 1⟩, {}) [.a, .env (.update 0 [5]), .a]).2.st = .failed ∧
+    (run ⟨1, [1], 1⟩ [1] [9] (⟨some ⟨0, 1, [1]⟩, 1⟩, {}) [.a, .env .delete, .a]).2.st = .failed := by
+  decide
+
+/-- The `CondProto` shape of an extracted path. -/
+def specOf (p : CondPath) : Spec := ⟨p.reads, p.etagCompared, p.lockVersionGen.getD 0⟩
+
+/-- Every conditional path the extractor is expected to find was found (it fails closed otherwise). -/
+theorem extracted_paths_present :
+    ∀ fk ∈ [("PutObject", "im"), ("PutObject", "imstar"), ("PutObject", "inm"), ("CompleteMultipartUpload", "im"),
+            ("CompleteMultipartUpload", "imstar"), ("CompleteMultipartUpload", "inm"), ("DeleteObject", "im"),
+            ("DeleteObject", "imstar"), ("AppendObject", "append")],
+      ∃ p ∈ condPaths, (p.fn, p.kind) = fk ∧ p.lockVersionGen.isSome = true := by
+  decide
+
+/-- **extracted_if_match_paths_lock_the_compared_row** (T1, the code as it is now). In every
+If-Match path of PutObject, CompleteMultipartUpload and DeleteObject the read whose
+optimistic_lock_version guards the lock is a read whose ETag was compared with the If-Match value;
+the locked row id comes from the same read; the lock is skipped only if THAT read found no row (which
+the comparison has excluded); a guarded delete uses the same read. -/
+theorem extracted_if_match_paths_lock_the_compared_row :
+    ∀ p ∈ condPaths, p.kind = "im" →
+      (specOf p).Safe ∧ p.lockEntityGen = p.lockVersionGen ∧
+      (p.lockOnlyIfRowGen = none ∨ p.lockOnlyIfRowGen = p.lockVersionGen) ∧
+      (p.casDeleteVersionGen = none ∨ p.casDeleteVersionGen = p.lockVersionGen) := by
+  decide
+
+/-- The same for `If-Match: *` and `If-None-Match: *`: the lock-supplying read is one whose
+existence / delete-marker state was tested as the precondition — for If-None-Match it is the LAST
+read (the re-read is also re-tested). -/
+theorem extracted_star_and_inm_paths_lock_the_checked_row :
+    ∀ p ∈ condPaths, (p.kind = "imstar" ∨ p.kind = "inm") →
+      (∃ g, p.lockVersionGen = some g ∧ p.existChecked.contains g = true ∧ 1 ≤ g ∧ g ≤ p.reads ∧
+        (p.kind = "inm" → g = p.reads)) ∧
+      p.lockEntityGen = p.lockVersionGen ∧
+      (p.lockOnlyIfRowGen = none ∨ p.lockOnlyIfRowGen = p.lockVersionGen) := by
+  decide
+
+/-- AppendObject (metadata store): the guarded update uses the version of the row whose part rows
+were read for the prefix check, and the prefix check is there. -/
+theorem extracted_append_path_locks_the_row_it_read :
+    ∀ p ∈ condPaths, p.kind = "append" →
+      p.lockVersionGen.isSome = true ∧ p.lockVersionGen = p.partsReadGen ∧ p.lockEntityGen = p.lockVersionGen ∧
+      p.prefixChecked = true := by
+  decide
+
+/-- Hence, for the If-Match paths of the code as it is: for every interleaving with other
+writers' commits, an If-Match write commits only by replacing a row with the ETag it named. -/
+theorem extracted_if_match_paths_safe :
+    ∀ p ∈ condPaths, p.kind = "im" → ∀ (e new : List Nat) (d : Db), (∀ r, d.row = some r → r.id < d.nextId) →
+      ∀ (evs : List Ev) b, (run (specOf p) e new (d, {}) evs).2.st = .committed b → ∃ c, b = some c ∧ c.parts = e :=
+  fun p hp hk e new d hd evs =>
+    if_match_commits_only_on_the_compared_row (specOf p) (extracted_if_match_paths_lock_the_compared_row p hp hk).1 e new d hd evs
+
+end Paths
 
 end Pithos.C07
